@@ -72,6 +72,60 @@ func (s *c27GenSt) probe() {
 	}
 }
 
+// Recover into a fresh object or on the object in use
+func c27Recover(g *Gen) {
+	if g.Intn(2) == 0 {
+		g.Emit("recoverself")
+	} else {
+		g.Emit("recover")
+	}
+}
+
+// roll back: append N, Flush, append k more without Flush, Recover on the same object,
+// append again, look at every witness; repeated
+func c27Rollback(g *Gen) {
+	s := &c27GenSt{g: g}
+	n := g.Pick(0, 1, 2, 3, 4, 5, 6, 7, 8, 9, 12, 15, 16, 17, g.Intn(40))
+	for s.n < n {
+		s.add()
+	}
+	rounds := 1 + g.Intn(4)
+	for r := 0; r < rounds; r++ {
+		g.Emit("flush")
+		committed := s.n
+		k := g.Pick(1, 1, 2, 3, 1+g.Intn(8))
+		for i := 0; i < k; i++ {
+			if g.Intn(2) == 0 {
+				s.add()
+			} else {
+				g.Emit("addq %s", hx(g.Bytes(g.Intn(20))))
+				s.n++
+			}
+		}
+		if g.Intn(4) == 0 {
+			g.Emit("witall")
+		}
+		g.Emit("recoverself")
+		s.n = committed
+		if g.Intn(3) == 0 {
+			g.Emit("recoverself")
+		}
+		g.Emit("shape")
+		g.Emit("verall")
+		more := 1 + g.Intn(4)
+		for i := 0; i < more; i++ {
+			s.add()
+			g.Emit("wit %d", s.n-1)
+		}
+		g.Emit("shape")
+		g.Emit("roots")
+		g.Emit("verall")
+	}
+	g.Emit("flush")
+	g.Emit("recover")
+	g.Emit("verall")
+}
+
 func c27Negative(x int) int {
 	if x < 0 {
 		return 0
@@ -93,7 +147,7 @@ func c27Sweep(g *Gen, upto int, persist bool, verEvery int) {
 		if persist {
 			g.Emit("flush")
 			if g.Intn(2) == 0 {
-				g.Emit("recover")
+				c27Recover(g)
 			}
 		}
 		g.Emit("witall")
@@ -133,7 +187,7 @@ func c27Random(g *Gen) {
 	}
 	g.Emit("flush")
 	g.Emit("witall")
-	g.Emit("recover")
+	c27Recover(g)
 	g.Emit("roots")
 	g.Emit("witall")
 	g.Emit("verall")
@@ -151,7 +205,7 @@ func c27Random(g *Gen) {
 	g.Emit("verall")
 	if g.Intn(4) == 0 {
 		// recover without flushing the tail: items after the last flush are gone
-		g.Emit("recover")
+		c27Recover(g)
 		g.Emit("witall")
 		g.Emit("verall")
 		s.n = c27Negative(s.n - more)
@@ -255,6 +309,8 @@ func c27Gen(g *Gen) {
 			c27Malformed(g)
 		case c%3 == 2:
 			c27QuietFlush(g)
+		case c%3 == 1:
+			c27Rollback(g)
 		default:
 			c27Random(g)
 		}
@@ -601,6 +657,28 @@ func (r *c27Runner) Step(t []string, o *Oracle) (out string) {
 			o.Check(diff == 0, "mta-recover-witness-differs", "after Flush+Recover %d of %d witnesses differ or fail", diff, r.a.Len())
 		}
 		return fmt.Sprintf("flushed %d %s", ln, c27Roots(s.Roots))
+	case t[0] == "recoverself" && len(t) == 1:
+		// Recover() on the SAME, already used object (roll back to the persisted state)
+		o.Count("recover-same-object")
+		if err := r.a.Recover(); err != nil {
+			return "err"
+		}
+		if int64(len(r.leaves)) > r.a.Len() {
+			r.leaves = r.leaves[:r.a.Len()]
+		}
+		// property: a recovered accumulator is determined by the bucket alone, whatever the
+		// object held before: same length, same slots, same root hashes as a fresh object
+		f := &mta.Accumulator{KeyForState: []byte("a"), Bucket: r.bk}
+		ferr := f.Recover()
+		hs, occ := mta.VerifRoots(r.a)
+		fh, focc := mta.VerifRoots(f)
+		same := ferr == nil && f.Len() == r.a.Len() && len(hs) == len(fh)
+		for i := 0; same && i < len(hs); i++ {
+			same = occ[i] == focc[i] && bytes.Equal(hs[i], fh[i])
+		}
+		o.Check(same, "mta-recover-reused-object-differs",
+			"Recover on a used object: len=%d roots=%s, a fresh object recovers len=%d roots=%s", r.a.Len(), c27Roots(hs), f.Len(), c27Roots(fh))
+		return fmt.Sprintf("recovered %d %d", r.a.Len(), len(hs))
 	case t[0] == "recover" && len(t) == 1:
 		o.Count("recover")
 		b := &mta.Accumulator{KeyForState: []byte("a"), Bucket: r.bk}
